@@ -346,7 +346,11 @@ impl IndexManager {
             segment_bits: header_v2.file_offset_bits,
         };
 
-        let entry_size = (header.key_size + header.location_size + header.length_size) as usize;
+        // The field sizes come from the file: add them as usize so that large
+        // values cannot overflow u8 (panic in debug, zero entry size in release).
+        let entry_size = usize::from(header.key_size)
+            + usize::from(header.location_size)
+            + usize::from(header.length_size);
         Ok((header, entry_size))
     }
 
@@ -1807,6 +1811,36 @@ mod tests {
         assert_eq!(entry2.archive_id(), 2);
         assert_eq!(entry2.archive_offset(), 0x2000);
         assert_eq!(entry2.size, 2048);
+    }
+
+    /// Write a one-entry index file and return its path and bytes
+    fn write_test_index(dir: &Path) -> (PathBuf, Vec<u8>) {
+        let mut manager = IndexManager::new(dir);
+        manager
+            .add_entry(&create_test_ekey_1(), 1, 0x1000, 1024)
+            .expect("add_entry should succeed");
+        manager.save_all().expect("save_all should succeed");
+
+        let path = std::fs::read_dir(dir)
+            .expect("read_dir")
+            .map(|entry| entry.expect("dir entry").path())
+            .next()
+            .expect("an index file should have been written");
+        let data = std::fs::read(&path).expect("read index file");
+        (path, data)
+    }
+
+    #[test]
+    fn test_load_index_field_sizes_overflowing_u8() {
+        let temp_dir = tempfile::tempdir().expect("Failed to create temp dir");
+        let (path, mut data) = write_test_index(temp_dir.path());
+
+        // encoded_size_length = 0xFF: 9 + 5 + 0xFF does not fit in u8.
+        // Loading must return, not panic (debug) or loop forever (release).
+        data[12] = 0xFF;
+        std::fs::write(&path, &data).expect("write index file");
+        let mut manager = IndexManager::new(temp_dir.path());
+        assert!(manager.load_index(0, &path).is_ok());
     }
 }
 
